@@ -11,6 +11,9 @@
 (* stands for the maximal hash.                                                            *)
 EXTENDS Integers, Sequences, FiniteSets
 
+CONSTANT LimitProof   \* TRUE: a storage range cut at the limit while more slots follow counts as capped and is
+                      \*       proven (behaviour after the C48 fix); FALSE: as coded before (no proof, see LimitGap)
+
 SoftLimit == 2 * 1024 * 1024          \* softResponseLimit
 MaxLookups == 1024                    \* maxCodeLookups
 
@@ -63,7 +66,7 @@ SlotRun(szs, j, limit, hard, size) ==
   IF j > Len(szs) THEN [keys |-> << >>, size |-> size, abort |-> FALSE]
   ELSE IF size >= hard THEN [keys |-> << >>, size |-> size, abort |-> TRUE]
   ELSE LET size2 == size + szs[j] IN
-       IF 2 * j >= limit THEN [keys |-> <<j>>, size |-> size2, abort |-> FALSE]
+       IF 2 * j >= limit THEN [keys |-> <<j>>, size |-> size2, abort |-> LimitProof /\ j < Len(szs)]
        ELSE LET rest == SlotRun(szs, j + 1, limit, hard, size2) IN
             [keys |-> <<j>> \o rest.keys, size |-> rest.size, abort |-> rest.abort]
 
@@ -109,7 +112,7 @@ StorageRangesOK(W, req) ==
   /\ r.dropped => (r.slots = << >> /\ ~r.proof)
   /\ \A x \in 1..Len(r.slots) : r.slots[x].keys # << >>
   /\ \A x, y \in 1..Len(r.slots) : x < y => r.slots[x].acct < r.slots[y].acct
-  /\ (Verifiable(W, req, r) \/ LimitGap(W, req))
+  /\ (Verifiable(W, req, r) \/ (~LimitProof /\ LimitGap(W, req)))
   \* budget: an account is only opened while below the soft limit, a slot only added while below the hard one
   /\ \A x \in 1..Len(r.slots) :
         LET before == SumAll(W, req, r, x - 1) IN before < Cap(req.bytes)
